@@ -20,15 +20,49 @@ import (
 
 // ---- batch span processor ----
 
+// ctxProbe: what a well-behaved exporter does with its context -- give up when it is already
+// done -- and the deadline it was handed at the first non-empty export.
+type ctxProbe struct {
+	seen     bool
+	deadline bool
+	remainMs int64
+	refused  int // exports refused because the context was already done
+}
+
+func (p *ctxProbe) enter(ctx context.Context, n int) error {
+	if err := ctx.Err(); err != nil {
+		p.refused++
+		return err
+	}
+	if n > 0 && !p.seen {
+		p.seen = true
+		if d, ok := ctx.Deadline(); ok {
+			p.deadline, p.remainMs = true, time.Until(d).Milliseconds()
+		}
+	}
+	return nil
+}
+
+func (p *ctxProbe) result(res *Result) {
+	if p.seen {
+		res.Deadline = &DeadlineObs{Set: p.deadline, RemainMs: p.remainMs}
+	}
+	res.Refused = p.refused
+}
+
 type countSpanExporter struct {
 	mu      sync.Mutex
 	batches []int
+	probe   ctxProbe
 }
 
-func (e *countSpanExporter) ExportSpans(_ context.Context, s []sdktrace.ReadOnlySpan) error {
+func (e *countSpanExporter) ExportSpans(ctx context.Context, s []sdktrace.ReadOnlySpan) error {
 	e.mu.Lock()
+	defer e.mu.Unlock()
+	if err := e.probe.enter(ctx, len(s)); err != nil {
+		return err
+	}
 	e.batches = append(e.batches, len(s))
-	e.mu.Unlock()
 	return nil
 }
 func (e *countSpanExporter) Shutdown(context.Context) error { return nil }
@@ -95,8 +129,12 @@ func runBSP(sc *Scenario, res *Result) {
 	if sc.Via != "nonblocking" {
 		opts = append(opts, sdktrace.WithBlocking())
 	}
-	ctx, cancel := context.WithTimeout(ctxBg, 20*time.Second)
-	defer cancel()
+	ctx := ctxBg // no deadline of our own: the exporter must see only what the processor sets
+	defer func() {
+		exp.mu.Lock()
+		exp.probe.result(res)
+		exp.mu.Unlock()
+	}()
 	if sc.Via == "provider" {
 		// the same constructor reached through the provider option WithBatcher, driven by real spans
 		tp := sdktrace.NewTracerProvider(sdktrace.WithBatcher(exp, opts...), sdktrace.WithSampler(sdktrace.AlwaysSample()))
@@ -146,12 +184,16 @@ func runBSP(sc *Scenario, res *Result) {
 type countLogExporter struct {
 	mu      sync.Mutex
 	batches []int
+	probe   ctxProbe
 }
 
-func (e *countLogExporter) Export(_ context.Context, r []sdklog.Record) error {
+func (e *countLogExporter) Export(ctx context.Context, r []sdklog.Record) error {
 	e.mu.Lock()
+	defer e.mu.Unlock()
+	if err := e.probe.enter(ctx, len(r)); err != nil {
+		return err
+	}
 	e.batches = append(e.batches, len(r))
-	e.mu.Unlock()
 	return nil
 }
 func (e *countLogExporter) Shutdown(context.Context) error   { return nil }
@@ -180,8 +222,12 @@ func runBLRP(sc *Scenario, res *Result) {
 		e = nil
 	}
 	p := sdklog.NewBatchProcessor(e, opts...)
-	ctx, cancel := context.WithTimeout(ctxBg, 20*time.Second)
-	defer cancel()
+	ctx := ctxBg // no deadline of our own: the exporter must see only what the processor sets
+	defer func() {
+		exp.mu.Lock()
+		exp.probe.result(res)
+		exp.mu.Unlock()
+	}()
 	if sc.Via == "provider" {
 		// records emitted through a LoggerProvider / Logger instead of OnEmit
 		lg := sdklog.NewLoggerProvider(sdklog.WithProcessor(p)).Logger("c20")
